@@ -12,7 +12,7 @@ trap 'git -C /repo worktree remove --force "$W" >/dev/null 2>&1; rm -rf "$W" /tm
 ( cd "$W" && git apply "$patch" ) || { echo "TROUBLE patch does not apply: $patch"; exit 2; }
 ( cd "$W" && go build ./... && go test -vet=off -count=1 ./... >/tmp/mutrun/$name.suite.log 2>&1 ) || { echo "SUITE-FAILS $name (see /tmp/mutrun/$name.suite.log)"; exit 3; }
 for prop in "$@"; do
-  out=$(cd /verif && VERIF_REPO="$W" VERIF_EVIDENCE_DIR=/tmp/mutrun/$name.ev VERIF_REPLAY_DIR=/tmp/mutrun/$name.rp ${VERIF_SEED:+VERIF_SEED=$VERIF_SEED} ./bin/check run "$prop" --tier quick 2>&1); rc=$?
+  out=$(cd /verif && VERIF_REPO="$W" VERIF_EVIDENCE_DIR=/tmp/mutrun/$name.ev VERIF_REPLAY_DIR=/tmp/mutrun/$name.rp ./bin/check run "$prop" --tier quick 2>&1); rc=$?
   case $rc in
     1) echo "CAUGHT $name by $prop: $(echo "$out" | grep '^violation' | head -3 | tr '\n' '|' | cut -c1-400)";;
     0) echo "MISSED $name by $prop: $(echo "$out" | tail -1 | cut -c1-200)";;
